@@ -60,7 +60,8 @@ def unmarshalLines (x : List Byte) (r : Run) : List String :=
   [s!"U {if u.isEmpty then "-" else hexOfBytes u}", s!"S {go chunks 0 0}"]
 
 def printEnv : PrintEnv :=
-  { prim := findPrim, rc := rcFmt, rcRows := rcRows Generated.rcTables }
+  { prim := findPrim, rc := rcFmt, rcRows := rcRows Generated.rcTables,
+    rcDetails := fun v => (rcRowDetails Generated.rcTables v).getD [] }
 
 def rowStr : Row → String
   | .field t d n h v => s!"P {if t.isEmpty then "-" else t} {d} {n} {if h.isEmpty then "-" else hexOfBytes h} {v}"
@@ -70,7 +71,50 @@ def erowStr : ERow → String
   | .field t p v => s!"E {t} {if p.isEmpty then "." else p} {v}"
   | .info k => s!"E! {k}"
 
-def handle (line : String) : List String :=
+/-! ### the allowed set a `ValueConstraintViolatedError` names: that of the declared type (a primitive type's declared set, or
+the selector values of a union's members), as merged closed intervals -/
+
+def mergeIvs : List (Int × Int) → List (Int × Int)
+  | [] => []
+  | [a] => [a]
+  | a :: b :: rest =>
+    if b.1 ≤ a.2 + 1 then mergeIvs ((a.1, max a.2 b.2) :: rest) else a :: mergeIvs (b :: rest)
+termination_by l => l.length
+
+def ivsStr (ivs : List (Int × Int)) : String :=
+  let sorted := ivs.mergeSort (fun a b => a.1 ≤ b.1)
+  ",".intercalate ((mergeIvs sorted).map fun (lo, hi) => if lo == hi then toString lo else s!"{lo}..{hi}")
+
+def itemIv : VItem → List (Int × Int)
+  | .range lo hi => if lo < hi then [(lo, hi - 1)] else []
+  | .named _ _ lo hi _ _ _ => if lo < hi then [(lo, hi - 1)] else []
+  | .member _ _ v _ _ => [(v, v)]
+  | .int v => [(v, v)]
+  | .unknown _ => []
+
+def validOfName (n : String) : String :=
+  match findPrim n with
+  | some p => ivsStr (p.valid.flatMap itemIv)
+  | none =>
+    match Generated.allTypes.find? (fun t => t.name == n) with
+    | some (.union _ arms) => ivsStr (arms.keys.filterMap fun k => match k.2 with | .int v => some (v, v) | _ => none)
+    | _ => "?"
+
+/-- append `valid=…` to the rendering of a value error (lines `W … ValueConstraintViolatedError …` and `R raised …`) -/
+def withValid (l : String) : String :=
+  match l.splitOn "ValueConstraintViolatedError path=" with
+  | [pre, post] =>
+    let toks := post.splitOn " "
+    match toks.find? (fun t => t.startsWith "type=") with
+    | some tt =>
+      -- insert right after the `value=…` token
+      let ty := (tt.drop 5).toString
+      let out := toks.map fun t => if t.startsWith "value=" then t ++ " valid=" ++ validOfName ty else t
+      pre ++ "ValueConstraintViolatedError path=" ++ " ".intercalate out
+    | none => l
+  | _ => l
+
+def handleRaw (line : String) : List String :=
   match line.splitOn " " with
   | ["DEC", mode, ty, cc, enc, hex] =>
     match parseTop ty cc enc, bytesOfHex hex with
@@ -243,6 +287,8 @@ def handle (line : String) : List String :=
     | some p, some x => bitLines p x
     | _, _ => ["X bad-bits-op"]
   | _ => ["X bad-op"]
+
+def handle (line : String) : List String := (handleRaw line).map withValid
 
 partial def loop (h : IO.FS.Stream) (out : IO.FS.Stream) : IO Unit := do
   let line ← h.getLine
